@@ -8,13 +8,15 @@ use crate::c01::{sizes, Sizes};
 use crate::gen::Blob;
 use crate::util::*;
 use crate::Ctx;
-use ipc_channel::ipc::{self, IpcError, IpcOneShotServer, IpcReceiverSet, IpcSelectionResult, IpcSender, IpcSharedMemory, TryRecvError};
+use ipc_channel::ipc::{self, IpcError, IpcOneShotServer, IpcReceiverSet, IpcSelectionResult, IpcSender, IpcSharedMemory, OpaqueIpcSender, TryRecvError};
 use ipc_channel::router::RouterProxy;
 use serde_json::{json, Value};
 use std::sync::atomic::{AtomicBool, Ordering};
 use std::sync::{Arc, Mutex};
 
-type Att = Option<(IpcSender<u64>, IpcSharedMemory)>;
+// the third part, in the target message only: a clone of the very sender the message is sent on (if the
+// message is torn and discarded, that handle must go with it, or the channel never disconnects)
+type Att = Option<(IpcSender<u64>, IpcSharedMemory, Option<OpaqueIpcSender>)>;
 type M = (u32, Blob, Att);
 
 fn mid(shape: u64, seq: u32) -> u64 {
@@ -41,7 +43,7 @@ pub fn role_crasher(args: &[String]) -> i32 {
     }
     let a: Att = if att {
         let (t, _r) = ipc::channel::<u64>().unwrap();
-        Some((t, IpcSharedMemory::from_bytes(&body(mid(shape, 77), 5000))))
+        Some((t, IpcSharedMemory::from_bytes(&body(mid(shape, 77), 5000)), Some(tx.clone().to_opaque())))
     } else {
         None
     };
@@ -76,8 +78,8 @@ fn classify(shape: u64, len2: usize, m: M) -> Obs {
     // every message that carries a region carries its own: the target's, or the survivor's per message
     let att_ok = match att {
         None => true,
-        Some((_t, g)) if seq == 2 => &g[..] == &body(mid(shape, 77), 5000)[..],
-        Some((_t, g)) => &g[..] == &body(mid(shape, 77 + seq), 3000 + seq as usize)[..],
+        Some((_t, g, _own)) if seq == 2 => &g[..] == &body(mid(shape, 77), 5000)[..],
+        Some((_t, g, _own)) => &g[..] == &body(mid(shape, 77 + seq), 3000 + seq as usize)[..],
     };
     Obs::Msg { seq, intact, att_ok, len: blob.0.len() }
 }
@@ -254,7 +256,7 @@ pub fn run_one(shape: u64, len: usize, att: bool, survivor: bool, observer: u8, 
                 let a: Att = if surv_att {
                     let (t, r) = must("channel", ipc::channel::<u64>());
                     kept.push(r);
-                    Some((t, IpcSharedMemory::from_bytes(&body(mid(shape, 77 + seq), 3000 + seq as usize))))
+                    Some((t, IpcSharedMemory::from_bytes(&body(mid(shape, 77 + seq), 3000 + seq as usize)), None))
                 } else {
                     None
                 };
